@@ -18,6 +18,35 @@ CHECKS = {
         technique="SSA symbolic execution + SMT (z3, LIA), bounded unrolling with unwinding assertions"),
 }
 
+CHECKS["C15"] = dict(
+    category="proof",
+    text="Bounded-by-nothing-but-width proof obligations over the real limb code of bandersnatch/fr executed from SSA: add/sub/neg/double/"
+         "reduce/butterfly/mulByConstant/Cmp/Equal/IsZero/LexicographicallyLargest/Bit/BitLen/SetUint64 and the CIOS Montgomery "
+         "multiplication/fromMont for ALL limb values (operands < r), every receiver/operand aliasing pattern; integer encoding with "
+         "abstract 64x64 products and proved dropped-result lemmas for mul, bit-vectors for the linear routines.",
+    design_ref="DESIGN.md section 3.1, 5 / C15",
+    note="Trusted: encoder, z3, schoolbook lemma sum P(x_i,y_j)W^(i+j)=x*y (paper), true axioms of the abstract product. Outside: Inverse, "
+         "Sqrt, Exp, Legendre, BatchInvert (algebra level), assembly routines (not yet covered by this check; amd64 dispatch is routed to the portable twins).",
+    technique="SSA symbolic execution + SMT (z3: QF_BV and LIA with witness terms), per-obligation push/pop")
+CHECKS["C16"] = dict(
+    category="proof",
+    text="Every byte string of each length 0..64 (quick: 12 lengths incl. 0,31,32,33,64) through SetBytes/SetBytesLE/SetBytesLECanonical "
+         "executed from SSA: reduce-or-reject exactly (accept iff int<r), decode value = int mod r, receiver's old content irrelevant, "
+         "caller's slice unchanged (write monitor); Bytes/BytesLE layout and round trips for all scalars.",
+    design_ref="DESIGN.md section 3.3, 5 / C16",
+    note="Trusted: encoder, z3, math/big and sync.Pool stubs (pool returns arbitrary content), Montgomery conversions summarised by the "
+         "MONT/UNMONT bijection whose limb-level contract is C15. Outside: lengths > 64, fp.BytesLE (dependency).",
+    technique="SSA symbolic execution + SMT (z3 LIA/UF), write-monitor frame obligations")
+CHECKS["C05"] = dict(
+    category="proof",
+    text="PrecompPoint.ScalarMul executed from SSA for a fully symbolic scalar (all values < r), window sizes 8 and 16: per window the net "
+         "multiple of the table row equals the closed-form signed digit, table index always in range (no panic), no carry out of the top "
+         "window; MSMPrecomp.MSM loop pairs scalar i with table i and skips zeros for lengths up to 6 (thorough 32).",
+    design_ref="DESIGN.md section 5 / C05 (O1, O2)",
+    note="Trusted: encoder, z3, table given by specification ((j+1)*kappa_k), group-law summaries of ExtendedAddNormalized/Neg, "
+         "UNMONT bijection (C15). Outside: table construction and curve formulas (O3/O4 not yet built), linearity consequences.",
+    technique="SSA symbolic execution + SMT (z3 QF_BV), lazy specification tables, formal-linear-combination group domain")
+
 NOT_YET = {}
 
 ALL = ["C%02d" % i for i in range(1, 21)]
